@@ -111,6 +111,10 @@ Fixpoint starts_with (w s : string) : option string :=
                    | EmptyString => None
                    end
   end.
+(* the literal that stands in `line` directly after the fixed text `pre`, and what follows it *)
+Definition literal_at (pre line : string) : option (literal * string) :=
+  match starts_with pre line with Some r => lex_prefix r | None => None end.
+
 Definition boundary_after (rest : string) : bool :=
   match rest with EmptyString => true | String c _ => negb (is_word c) end.
 
@@ -148,6 +152,9 @@ Definition bank_template (b : backend) (ty : string) : string :=
   | CmsAod => "iEvent.getByLabel(collection_name, result);"
   | CmsMiniaod => "consumes<" +++ ty +++ ">(edm::InputTag(collection_name))"
   end.
+
+(* cms/miniaod/event_collections.py: cms_miniaod_collections, container type names *)
+Definition miniaod_types : list string := ["pat::MuonCollection"; "reco::VertexCollection"; "pat::ElectronCollection"].
 
 (* the bank name is an ast.Constant str (get_collection refuses anything else); its rep is
    visit_Constant's text; repl_list = [("collection_name", text)] *)
@@ -235,6 +242,16 @@ Definition run_book (a : sexp) : sexp :=
       match d_backend b, d_list d_leaf ls with
       | Some b', Some leaves => SList [s_strs (book_lines b' tree leaves); SAtom (fill_line b' tree)]
       | _, _ => bad_input
+      end
+  | _ => bad_input
+  end.
+(* (prefix line) -> ("some" literal rest) | ("none") *)
+Definition run_literal_at (a : sexp) : sexp :=
+  match a with
+  | SList [SAtom pre; SAtom line] =>
+      match literal_at pre line with
+      | Some (l, rest) => s_tag "some" [s_literal l; SAtom rest]
+      | None => s_tag "none" []
       end
   | _ => bad_input
   end.
